@@ -28,6 +28,13 @@ is attributed to the earlier one:
   READING with `command_timeout > 0` and `connect + command_timeout < now`; the signal interrupts
   the target iff it is blocked in connect or in xpoll (a target that is not blocked loses it);
   then `sleep` again;
+* `W.destroyBegin` .. `W.destroyEnd` = the TEARDOWN, a phase of its own: a script also says how long the remote
+  command lives by itself (`life` seconds after the connect, `none` = for ever) and what a SIGTERM does to it
+  (`grace`: gone that many seconds later, `none` = ignored).  The worker forwards SIGTERM when it gives up on the
+  target at the command timeout (both places).  `W.destroyEnd` (`rcmd_destroy` returns, the command is reaped)
+  is possible only when the command is gone (`death ≤ now`); a wait interrupted by a signal would return
+  un-reaped (EINTR; dead branch on this code, see `Props/C07.lean teardown_uninterrupted`).  The fanout slot is
+  released by the operations after `W.destroyEnd`, as in the Fan LTS;
 * `tick`: the clock advances by one second.  MAXIMAL PROGRESS: a tick is possible only when no
   thread can perform an operation (computation is instantaneous at the granularity of the 1 s
   clock).  Spurious wake-ups of the dispatcher do not count (they may or may not happen).
@@ -55,6 +62,9 @@ structure Script where
   conn : Conn
   out : List Item
   err : List Item
+  life : Option Nat := some 0    -- the remote command exits by itself this many seconds after the connect
+                                 -- (whatever its streams do); none = never
+  grace : Option Nat := some 0   -- it is gone this many seconds after a SIGTERM; none = it ignores SIGTERM
 deriving DecidableEq, Repr
 
 structure Cfg where
@@ -93,6 +103,9 @@ structure Host where
   err : Stream
   res : Res
   reps : List Rep      -- what dsh.c itself printed on stderr about this host
+  grace : Option Nat   -- copy of the script's `grace` (what a forwarded SIGTERM will do)
+  death : Option Nat   -- the instant at which the remote command is gone (none = never, as things stand)
+  reaped : Bool        -- `rcmd_destroy` has returned with the command gone (the connection is torn down)
 deriving DecidableEq, Repr
 
 def Item.avail (base now : Nat) (it : Item) : Bool :=
@@ -151,17 +164,33 @@ def Host.oneRound (now : Nat) (h : Host) : Host :=
     { h with out := o.1, err := e.1, reps := reps, ph := .finished, res := .done }
   else { h with out := o.1, err := e.1, reps := reps }
 
-/-- `if (_thd_command_timeout (a)) { report; fail; break; }` at the top of the poll loop (repair variant) -/
+/-- `rcmd_signal (a->rcmd, SIGTERM)`: the command is gone `grace` seconds from now, unless it goes earlier anyway -/
+def termDeath (g : Option Nat) (now : Nat) (d : Option Nat) : Option Nat :=
+  match g with
+  | none => d
+  | some k => match d with
+    | none => some (now + k)
+    | some x => some (min x (now + k))
+
+/-- is the remote command gone? -/
+def Host.gone (now : Nat) (h : Host) : Bool :=
+  match h.death with
+  | none => false
+  | some d => decide (d ≤ now)
+
+/-- `if (_thd_command_timeout (a)) { report; fail; signal; break; }` at the top of the poll loop (repair variant) -/
 def Host.selfTimeout (c : Cfg) (now : Nat) (h : Host) : Host :=
   if c.selfCheck = true ∧ h.ph = .reading ∧ 0 < c.ut ∧ h.conn + c.ut < now then
-    { h with ph := .finished, res := .cmdTimedOut, reps := h.reps ++ [Rep.cmdTimeout] }
+    { h with ph := .finished, res := .cmdTimedOut, reps := h.reps ++ [Rep.cmdTimeout],
+             death := termDeath h.grace now h.death }
   else h
 
 /-- the blocked xpoll returns: EINTR (test the command timeout, fail or go on) or data -/
 def Host.wakeCore (c : Cfg) (now : Nat) (h : Host) : Host :=
   if h.intr then
     if 0 < c.ut ∧ h.conn + c.ut < now then
-      { h with intr := false, ph := .finished, res := .cmdTimedOut, reps := h.reps ++ [Rep.cmdTimeout] }
+      { h with intr := false, ph := .finished, res := .cmdTimedOut, reps := h.reps ++ [Rep.cmdTimeout],
+               death := termDeath h.grace now h.death }
     else Host.pollRound now { h with intr := false }
   else if c.selfCheck = true ∧ 0 < c.ut ∧ h.conn + c.ut < now then
     Host.oneRound now h      -- overdue: after one pass the loop top fails the target (`selfTimeout`)
@@ -175,7 +204,7 @@ def connReady (sc : Script) (h : Host) (now : Nat) : Bool :=
 
 /-- what happens to a host record, as a function of the record itself, its own script, the timeouts and the
     clock ONLY (this is the formal content of "a host cannot harm the others") -/
-inductive Local | create | connBegin | connEnd | wake | scan | other
+inductive Local | create | connBegin | connEnd | wake | scan | destEnd | other
 deriving DecidableEq, Repr
 
 def killed (c : Cfg) (now : Nat) (h : Host) : Bool :=
@@ -188,18 +217,22 @@ def hostStep (c : Cfg) (sc : Script) (now : Nat) (h : Host) : Local → Host
   | .connEnd =>
       if h.intr then { h with intr := false, ph := .finished, res := .connTimedOut }
       else match sc.conn with
-        | .ok _ => Host.pollRound now { h with conn := now, ph := .reading }
+        | .ok _ => Host.pollRound now { h with conn := now, ph := .reading, death := sc.life.map (now + ·) }
         | .refuse _ => { h with ph := .finished, res := .connFailed }
         | .hang => h
   | .wake => Host.selfTimeout c now (Host.wakeCore c now h)
   | .scan => if killed c now h then { h with intr := true } else h
+  | .destEnd =>
+      -- `rcmd_destroy` returns: the command is gone and reaped; or the wait was interrupted by a signal, then the
+      -- transport gives up (the command is alive, not reaped, and nobody waits for it any more)
+      if h.intr = true ∧ h.gone now = false then { h with intr := false } else { h with intr := false, reaped := true }
   | .other => h
 
 def initHost (c : Cfg) (sc : Script) : Host :=
   { ph := .new, start := 0, cbeg := 0, conn := 0, intr := false,
     out := { items := sc.out, got := 0, closed := false },
     err := { items := sc.err, got := 0, closed := !c.sopt },
-    res := .none, reps := [] }
+    res := .none, reps := [], grace := sc.grace, death := some 0, reaped := false }
 
 structure St where
   fan : Fan.St
@@ -226,12 +259,14 @@ def fanLocal : Fan.Label → Option (Nat × Local)
   | .d (.create j) => some (j, .create)
   | .w i .connectBegin => some (i, .connBegin)
   | .w i .connectEnd => some (i, .connEnd)
+  | .w i .destroyEnd => some (i, .destEnd)
   | _ => none
 
 /-- the additional guard the timed world puts on a Fan label -/
 def fanGuard (s : St) : Fan.Label → Bool
   | .w i .connectEnd => (s.host i).intr || connReady (s.script i) (s.host i) s.now
   | .w i .destroyBegin => (s.host i).ph == .finished
+  | .w i .destroyEnd => (s.host i).intr || (s.host i).gone s.now
   | _ => true
 
 def updHost (s : St) (i : Nat) (lo : Local) : List Host :=
